@@ -73,6 +73,8 @@ pub assume_specification[ String::as_bytes ](s: &String) -> (r: &[u8]) ensures r
 pub assume_specification[ isize::rem_euclid ](x: isize, rhs: isize) -> (r: isize)
     requires rhs != 0, !(x == isize::MIN && rhs == -1)
     ensures r as int == (x as int) % (rhs as int);
+pub assume_specification[ isize::unsigned_abs ](x: isize) -> (r: usize) ensures r as int == (if x < 0 { -(x as int) } else { x as int });
+pub assume_specification[ i64::unsigned_abs ](x: i64) -> (r: u64) ensures r as int == (if x < 0 { -(x as int) } else { x as int });
 pub assume_specification[ i64::checked_abs ](x: i64) -> (r: Option<i64>)
     ensures r == (if x == i64::MIN { None::<i64> } else if x < 0 { Some((-x) as i64) } else { Some(x) });
 pub assume_specification[ i64::signum ](x: i64) -> (r: i64)
